@@ -28,7 +28,7 @@ class MixDriver:
     admissible commands, with a configurable rate of deliberately inadmissible ones."""
 
     def __init__(self, rng, steps=60, p_assign=0.5, p_suspend=0.5, p_bad=0.02, bad_kinds=None,
-                 oversize=0.0, integer_sizes=True, p_unready=0.1, p_exact_ram=0.1):
+                 oversize=0.0, integer_sizes=True, p_unready=0.1, p_exact_ram=0.1, fixed_size=None, per_pool=None):
         self.rng = rng
         self.steps = steps
         self.p_assign = p_assign
@@ -40,12 +40,27 @@ class MixDriver:
         self.integer_sizes = integer_sizes
         self.p_unready = p_unready
         self.p_exact_ram = p_exact_ram
+        self.window_size = 24
+        self.give_up = {}
+        self.fixed_size = fixed_size      # (cpu, ram): every container gets exactly this (long 'busy' scripts)
+        self.per_pool = per_pool          # containers started per pool and step
 
     def assignable_groups(self, w):
         """Groups of operators that can go into one container now: for each pipeline the
         assignable operators, ready ones first (in multi mode a topological run of them)."""
         groups = []
-        for pi, spec in enumerate(w.specs):
+        # a sliding window over the pipelines: long scripts keep a steady supply of work
+        win = getattr(self, "window", None)
+        if win is None:
+            win = self.window = []
+            self.next_pi = 0
+        win[:] = [pi for pi in win if any(w.mstate[(pi, oi)] not in ("completed",) for oi in range(len(w.specs[pi]["ops"])))
+                  and not all(w.mstate[(pi, oi)] == "failed" and self.give_up.get(pi, 0) > 6 for oi in range(len(w.specs[pi]["ops"])) if w.mstate[(pi, oi)] != "completed")]
+        while len(win) < self.window_size and self.next_pi < len(w.specs):
+            win.append(self.next_pi)
+            self.next_pi += 1
+        for pi in win:
+            spec = w.specs[pi]
             keys = [(pi, oi) for oi in range(len(spec["ops"])) if w.mstate[(pi, oi)] in ASSIGNABLE]
             if not keys:
                 continue
@@ -127,7 +142,7 @@ class MixDriver:
         for k in range(w.npools):
             if not groups or rng.random() > self.p_assign:
                 continue
-            n_here = rng.choice([1, 1, 2, 3])
+            n_here = self.per_pool if self.per_pool else rng.choice([1, 1, 2, 3])
             budget_c, budget_r = w.free_cpu[k], w.free_ram[k]
             for _ in range(n_here):
                 cand = [g for g in groups if g[0] not in used]
@@ -135,6 +150,8 @@ class MixDriver:
                     break
                 pi, keys, ready = cand[0]
                 used.add(pi)
+                if any(w.mstate[k] == "failed" for k in keys):
+                    self.give_up[pi] = self.give_up.get(pi, 0) + 1
                 ops = self.pick_ops(w, pi, keys, ready)
                 if not ops:
                     continue
@@ -147,7 +164,11 @@ class MixDriver:
                     ram = budget_r * fr
                 if w.overcommit and rng.random() < 0.5:
                     ram = w.ram * rng.choice([0.5, 1.0, 1.0, 2.0])
-                if rng.random() < self.p_exact_ram:
+                if self.fixed_size:
+                    cpu, ram = self.fixed_size
+                    if cpu > budget_c or (ram > budget_r and not w.overcommit):
+                        break
+                elif rng.random() < self.p_exact_ram:
                     # allocation exactly equal to the peak of the chosen operators (limit boundary, no rounding)
                     peak = max((gen.seg_peak(sg) for (pi_, oi_) in ops for sg in w.specs[pi_]["ops"][oi_]["segs"]), default=0)
                     if 0 < peak <= (budget_r if not w.overcommit else peak):
